@@ -477,9 +477,12 @@ def apply_text_norms(text, mask, out, where):
         if not m:
             break
         close = match_close(mask, m.end() - 1)
-        if re.search(r"\b[a-z_][a-z0-9_]*\s*\(", mask[m.end():close]):
+        args_mask = re.sub(r"\.\s*[a-z_][a-z0-9_]*\s*\(\s*\)", "", mask[m.end():close])   # zero-argument getters are tolerated
+        if re.search(r"\b[a-z_][a-z0-9_]*\s*\(", args_mask):
             raise ExtractError("%s: format! with a call in its arguments" % where)
         seg = text[m.start():close + 1]
+        if args_mask != mask[m.end():close]:
+            out.dropped.append("%s: format! argument with a zero-argument getter call dropped with the message text: %s" % (where, " ".join(seg.split())[:120]))
         repl = "format_stub()"
         pad = "".join(ch for ch in seg if ch == "\n")
         text = text[:m.start()] + repl + pad + text[close + 1:]
